@@ -2462,3 +2462,43 @@ def is_byte_order_conversion(t, is_input, want, width=4):
         if v != ref:
             return False
     return True
+
+
+# ---------------------------------------------------------------------------------------------
+# R-FLOW: a value is handed on exactly as it is
+
+_KEEPING = ("to_string", "to_owned", "into", "from", "clone", "to_vec", "as_ref", "as_str", "as_bytes", "as_slice",
+            "deref", "borrow", "copied", "cloned", "into_boxed_str", "into_bytes", "to_bytes")
+
+
+def kept_as_is(t, allowed_leaf):
+    """Is term `t` the value `allowed_leaf(leaf)` accepts, possibly passed through conversions that keep every byte of it
+    (`to_string`, `to_owned`, `into`, `clone`, views)?  Anything else in between — a case fold, a filter, a clamp, a
+    truncation, arithmetic — is not."""
+    t = strip_deep(t)
+    for _ in range(8):
+        if allowed_leaf(t):
+            return True
+        if t[0] == "call" and len(t[2]) == 1 and (t[3] or {}).get("name") in _KEEPING and \
+                (t[3] or {}).get("krate") in ("core", "std", "alloc", "bytes"):
+            t = strip_deep(t[2][0])
+            continue
+        return False
+    return False
+
+
+def check_returns_kept(ctx, f, rule, fn, what, leaf_rx, key=None, through=None):
+    """Every value `fn` returns is (a keeping conversion of) the term matching `leaf_rx` — `through(t)` may first peel a
+    wrapper off the returned term (Some(..), a struct literal field …)."""
+    b = f.body(fn)
+    if b is None:
+        return ctx.missing(rule, key or short(fn), fn)
+    ctx.saw_fn(fn)
+    vals = [strip_deep(t) for _, _, t in success_values(b)]
+    rx = re.compile(leaf_rx)
+    bad = []
+    for v in vals:
+        for x in (through(v) if through else [v]):
+            if x is None or not kept_as_is(x, lambda l: rx.match(alpha(render(l), b)) is not None):
+                bad.append(alpha(render(v), b)[:160])
+    ctx.ob(rule, key or (short(fn) + ":kept-as-is"), bool(vals) and not bad, what, where=b.loc, detail=bad or None)
